@@ -71,8 +71,10 @@ Proof.
 Qed.
 
 (* Ry with cos = 3/5, sin = 4/5: real, not symmetric *)
+Definition qz (a : Z) (b : positive) : QArith_base.Q := QArith_base.Qmake a b.
 Definition w_Ry : nat -> nat -> QI2 :=
-  m22 qi2ops (qi2_of (3 # 5) 0 0 0) (qi2_of (- (4 # 5)) 0 0 0) (qi2_of (4 # 5) 0 0 0) (qi2_of (3 # 5) 0 0 0).
+  m22 qi2ops (qi2_of (qz 3 5) (qz 0 1) (qz 0 1) (qz 0 1)) (qi2_of (qz (-4) 5) (qz 0 1) (qz 0 1) (qz 0 1))
+             (qi2_of (qz 4 5) (qz 0 1) (qz 0 1) (qz 0 1)) (qi2_of (qz 3 5) (qz 0 1) (qz 0 1) (qz 0 1)).
 
 Lemma w_Ry_unitary : unitary qi2ops 2 w_Ry.
 Proof. split; apply meq_of_forallb; vm_compute; reflexivity. Qed.
